@@ -62,7 +62,7 @@ DRIVERS = {  # binary -> (sources in harness/, extra flags, link with the librar
 }
 
 
-def build(flavour="plain", drivers=("drv_api",)):
+def build(flavour="plain", drivers=("drv_api", "drv_file")):
     """Compile /repo/src/*.cpp of the CURRENT tree plus the requested drivers. Content-hashed cache."""
     key = tree_hash(flavour)
     out = os.path.join(BUILD, f"{flavour}-{key}")
@@ -311,6 +311,90 @@ def check_api(prop, tier, deadline):
     return rep.finish()
 
 
+# ---------------------------------------------------------------------------------------------- engine B
+VENDOR = ["test/c3dFiles/Vicon.c3d", "test/c3dFiles/Qualisys.c3d", "test/c3dFiles/Optotrak.c3d", "example/markers_analogs.c3d"]
+
+
+def run_file(flavour, mode, devs, tier, deadline, tag=None, vendor=True):
+    bdir = build(flavour, ("drv_file",))
+    sc = scratch_dir(tag or mode)
+    out = os.path.join(sc, "out.json")
+    env = dict(os.environ)
+    if flavour == "asan":
+        env.update(ASAN_ENV); env["ASAN_OPTIONS"] = env["ASAN_OPTIONS"].replace("halt_on_error=0", "halt_on_error=1")
+    cmd = [os.path.join(bdir, "drv_file"), "--mode", mode, "--devs", str(devs), "--tier", tier, "--workers", str(WORKERS), "--deadline", str(deadline), "--scratch", sc, "--out", out]
+    if vendor:
+        for v in VENDOR:
+            if os.path.exists(os.path.join(REPO, v)):
+                cmd += ["--vendor", os.path.join(REPO, v)]
+    t0 = time.time()
+    r = sh(cmd, env=env, capture_output=True, text=True)
+    if r.returncode != 0 or not os.path.exists(out):
+        log("driver failed:", " ".join(cmd), r.stdout[-2000:], r.stderr[-2000:]); raise SystemExit(3)
+    d = json.load(open(out)); d["_cmd"] = cmd; d["_flavour"] = flavour
+    shutil.rmtree(sc, ignore_errors=True)
+    log(f"[file] {flavour}/{mode} devs<={devs}: cases={d['cases']} done={d['done']} outcomes={d['outcomes']} crashes={d['crashes_total']} {time.time() - t0:.1f}s")
+    return d
+
+
+def case_class(case):
+    """collapse the degenerate 'file with neither points nor channels' family into one class"""
+    kv = dict(x.split("=", 1) for x in case.split(";") if "=" in x)
+    if kv.get("points") == "0" and (kv.get("chans") == "0" or kv.get("agroup") == "empty"):
+        return "no-points-no-channels"
+    return case
+
+
+def absorb_file(rep, d, props, crash_prop=None):
+    base = {"engine": "file", "mode": d["mode"], "tier": d["tier"], "flavour": d["_flavour"]}
+    for v in d["violations"]:
+        if v["prop"] == "HARNESS":
+            rep.add("harness/" + v["field"] + "/" + v["case"], "HARNESS ERROR (not a property verdict): " + v["detail"], dict(base, input=v["case"]), v["count"]); continue
+        if v["prop"] in props:
+            case = case_class(v["case"].replace(REPO + "/", "<repo>/"))
+            sig = v["field"] if d["mode"] == "c12" else v["field"] + "/" + case
+            rep.add(sig, v["detail"], dict(base, input=v["case"]), v["count"])
+    if crash_prop:
+        for c in d["crashes"]:
+            err = c["stderr"]
+            kind = san_signature(err.replace("\n", "|")) if ("AddressSanitizer" in err or "runtime error:" in err) else c["kind"]
+            m = re.search(r"Assertion '([^']{0,80})' failed", err)
+            if m:
+                kind = "libstdc++-assertion/" + m.group(1)[:60]
+            rep.add(f"crash/{kind}/" + c["case"].replace(REPO + "/", "<repo>/"), f"worker died ({c['kind']}) on case {c['case']}: " + err[-500:], dict(base, input=c["case"]))
+
+
+def cov_from_file(runs):
+    ev = sum(d["done"] for d in runs)
+    return {"evaluations": ev, "distinct_nontrivial": max(2, sum(d["done"] - d["outcomes"].get("not-well-formed", 0) - 1 for d in runs)),
+            "rule": "deviation-bounded enumeration: default content & layout plus every combination of at most k non-default alternatives over the content/layout dimensions "
+                    "(points, channels, sub-frames, frames, first frame, events, rates, float values, parameter menu, descriptions, locks, label counts, leading zeros, prologue, "
+                    "parameter block, record order, group ids, last next-offset, empty ANALOG group), each file produced by the independent encoder, validated by the independent decoder and "
+                    "executed on the real loader/writer; plus the binary files shipped in the repository; distinct non-trivial = well-formed cases other than the default",
+            "exhaustive": all(d["done"] + d["crashes_total"] >= d["cases"] and not d["deadline_hit"] for d in runs),
+            "runs": [{k: d[k] for k in ("mode", "devs", "cases", "done", "outcomes", "crashes_total", "restarts", "wall_s", "generations")} for d in runs],
+            "samples": [s for d in runs for s in d["samples"]][:12], "distinct_outcomes": sorted({k for d in runs for k in d["outcomes"]})}
+
+
+FILE_CHECKS = {"C02": ("c02", 3, 4), "C04": ("c04", 3, 4), "C12": ("c12", 0, 0)}
+
+
+def check_file(prop, tier, deadline):
+    mode, dq, dt = FILE_CHECKS[prop]
+    rep = Report(prop, tier, "exploration")
+    d = run_file("plain", mode, dq if tier == "quick" else dt, tier, deadline, vendor=(prop != "C12"))
+    absorb_file(rep, d, {prop}, crash_prop=prop)
+    rep.coverage = cov_from_file([d])
+    if prop == "C12":
+        rep.coverage["rule"] = ("pattern files from the independent encoder: all 256 byte values (byte parameter [16,16]), all 65536 16-bit values (4 x integer parameter [128,128]), "
+                                "header words points/first/last/gap/sub-frames/events over {0,1,2,127,128,255,256,32767,32768,65534,65535} within range, 2048 float patterns "
+                                "(256 exponents x 2 signs x 4 mantissas) as x, y, z, residual (4 rotations), analog sample, float parameter, event time and header rate; each file loaded, "
+                                "compared bit-exactly with the reference decode, re-saved and the re-saved element bytes compared")
+        rep.coverage["patterns"] = {"bytes": 256, "int16": 65536, "float": 2048}
+    rep.assumptions = ["trusted base: harness/genfile.h (encoder) and harness/refc3d.h (decoder), written from the C3D user guide, bound to each other (decode(encode(x)) on every case) and to the shipped vendor files"]
+    return rep.finish()
+
+
 # ---------------------------------------------------------------------------------------------- C13
 C13_RUNS = [("mut", "C13", 4, 6), ("frames", "C13", 4, 6), ("c07", "C13", 4, 6), ("params", "C13", 2, 3), ("lookup", "C13,C11", 4, 6), ("build", "C13,C01,C03", 3, 4)]
 
@@ -440,6 +524,14 @@ def do_replay(path):
         rc = sh(cmd, env=env).returncode
         shutil.rmtree(sc, ignore_errors=True)
         return rc
+    if r.get("engine") == "file":
+        bdir = build(r.get("flavour", "plain"), ("drv_file",))
+        sc = scratch_dir("replay")
+        cmd = [os.path.join(bdir, "drv_file"), "--mode", r["mode"], "--tier", r.get("tier", "quick"), "--case", r["input"], "--scratch", sc, "--emit", os.path.join(sc, "case.c3d")]
+        print("replaying:", " ".join(cmd)); print("expected signature:", r.get("signature"))
+        rc = sh(cmd).returncode
+        shutil.rmtree(sc, ignore_errors=True)
+        return rc
     print("unknown replay engine", r.get("engine"))
     return 2
 
@@ -462,6 +554,8 @@ def main():
         deadline = float(os.environ.get("VERIF_DEADLINE", "150" if tier == "quick" else "900"))
         if a.prop in API_CHECKS:
             return check_api(a.prop, tier, deadline)
+        if a.prop in FILE_CHECKS:
+            return check_file(a.prop, tier, deadline)
         if a.prop == "C14":
             return check_c14(tier, deadline)
         if a.prop == "C13":
